@@ -103,6 +103,16 @@ Dups == [
   forbody    |-> <<SFor(EPat(<<uu, x>>), EList(<<EInt(7), EInt(8)>>), <<SDecl(x, EInt(1)), SPrint(x)>>)>>,
   forbodyy   |-> <<SFor(EPat(<<uu, x>>), EList(<<EInt(7), EInt(8)>>), <<SDecl(y, x), SPrint(y)>>)>>,
   fnname     |-> <<SFn(F, <<EVar(F)>>, FALSE, <<SPrint(EVar(F))>>), SExpr(ECall(EVar(F), <<EInt(1)>>)), SFn(F, <<>>, FALSE, <<>>)>>,
+  patternorder |-> <<SDecl(EObj(<<Pair(EStr(<<102>>), x), Pair(x, y)>>),
+                           EObj(<<Pair(EStr(<<102>>), EStr(<<112>>)), Pair(EStr(<<112>>), EInt(8080))>>)),
+                     SPrint(x), SPrint(y)>>,
+  patternorderlist |-> <<SDecl(EPat(<<x, EObj(<<Pair(x, y)>>)>>),
+                               EList(<<EStr(<<112>>), EObj(<<Pair(EStr(<<112>>), EInt(1))>>)>>)),
+                         SPrint(x), SPrint(y)>>,
+  patternorderouter |-> <<SDecl(x, EStr(<<113>>)),
+                          SBlock(<<SDecl(EObj(<<Pair(EStr(<<102>>), x), Pair(x, y)>>),
+                                         EObj(<<Pair(EStr(<<102>>), EStr(<<112>>)), Pair(EStr(<<112>>), EInt(1)), Pair(EStr(<<113>>), EInt(2))>>)),
+                                   SPrint(x), SPrint(y)>>)>>,
   restsame   |-> <<SPrint(EInt(1)), SDecl(EPatRest(<<x, x>>), EList(<<EInt(1), EInt(2)>>))>>,
   objrestsame |-> <<SPrint(EInt(1)), SDecl(EObj(<<Short(x), PCollect(x)>>), EObj(<<Pair(EStr(NX), EInt(1))>>))>>
 ]
